@@ -198,8 +198,9 @@ class Ctx:
                             "model": model})
         return status
 
-    def claim_eq(self, name, a, b, tol=None):
-        """elementwise a == b"""
+    def claim_eq(self, name, a, b, tol=None, observe=True):
+        """elementwise a == b   (observe=False: the operands are gauge-dependent, e.g. eigenvector signs, and are not
+        compared between real torch and the shim during translator validation; the claim itself still is)"""
         if a is None and b is None:
             return self._record(name, "proved" if self.mode == "sym" else "ok")
         if (a is None) != (b is None):
@@ -241,7 +242,8 @@ class Ctx:
             return self._record(name, status, time.time() - t,
                                 model=self._model_inputs(model) if model is not None else None)
         fa, fb = _to_float_array(a), _to_float_array(b)
-        self.observed.append((name, fa))
+        if observe:
+            self.observed.append((name, fa))
         if fa.shape != fb.shape:
             return self._record(name, "failed", detail="shape %s vs %s" % (fa.shape, fb.shape))
         tol = tol or self.tol
@@ -402,6 +404,17 @@ def run_config(prop, cfg_id, scenario, params, opts):
         if cr.outcome and isinstance(cr.outcome, tuple) and cr.outcome[0] == "skip":
             res["shim_validation"]["skipped"] += 1
             continue
+        # the claims themselves on real torch (an ordinary test; a failure here is replayed below like a model)
+        for c in cr.claims:
+            if c["status"] == "failed":
+                res["violations"].append({"claim": c["name"], "detail": c["detail"], "source": "concrete-seeded",
+                                          "values": jsonable_vals(cr.inputs),
+                                          "confirmed": True})
+        if er is not None and not isinstance(er, (PathAbort, Inconclusive)):
+            res["violations"].append({"claim": "no-unexpected-exception", "detail": cr.outcome[1],
+                                      "source": "concrete-seeded",
+                                      "values": jsonable_vals(cr.inputs),
+                                      "confirmed": True, "tb": getattr(cr, "tb", None)})
         cs, es = run_concrete(scenario, params, "shim", values={n: v for n, v in cr.inputs.items()}, seed=seed)
         res["shim_validation"]["runs"] += 1
         if isinstance(cs.outcome, tuple) and cs.outcome and cs.outcome[0] == "inconclusive":
@@ -441,17 +454,6 @@ def run_config(prop, cfg_id, scenario, params, opts):
             res["shim_validation"]["agree"] += 1
         else:
             res["harness_errors"].append("shim/torch disagreement (seed %d): %s" % (seed, why))
-        # the claims themselves on real torch (an ordinary test; a failure here is replayed below like a model)
-        for c in cr.claims:
-            if c["status"] == "failed":
-                res["violations"].append({"claim": c["name"], "detail": c["detail"], "source": "concrete-seeded",
-                                          "values": jsonable_vals(cr.inputs),
-                                          "confirmed": True})
-        if er is not None and not isinstance(er, (PathAbort, Inconclusive)):
-            res["violations"].append({"claim": "no-unexpected-exception", "detail": cr.outcome[1],
-                                      "source": "concrete-seeded",
-                                      "values": jsonable_vals(cr.inputs),
-                                      "confirmed": True, "tb": getattr(cr, "tb", None)})
     if opts.get("concrete_only"):
         res["wall_s"] = round(time.time() - t0, 2)
         return res
